@@ -3,8 +3,8 @@ import re
 from vcore import Case, Harness, sdk_sources, SDK_INCLUDES
 
 ID = 'C19'
-GEN = ['C19']
-LEAN_TARGETS = ['OtelVerif.Props.C19']
+GEN = ['C19', 'TabNaming']
+LEAN_TARGETS = ['OtelVerif.Props.C19', 'OtelVerif.Props.TabNaming']
 THEOREMS = ['Otel.C19.' + t for t in (
     'name_regex', 'unit_regex', 'validators_see_whole_view', 'gen_literals', 'rxMatch_iff_lang',
     'validName_iff', 'validUnit_iff', 'validName_aswas_witness', 'hand_constants', 'validNameHand_iff', 'validUnitHand_iff',
@@ -16,7 +16,8 @@ THEOREMS = ['Otel.C19.' + t for t in (
     'same_stream_name_both_exported', 'first_handle_registers_streams', 'second_handle_no_new_stream', 'handle_twice', 'view_shapes_stream', 'view_shapes_stream_filter_partial',
     'view_filter_ignored_witness', 'view_unit_irrelevant', 'histogram_defaults', 'unmatched_gets_type_default', 'default_aggregation_table',
     'configurator_first_match', 'configurator_default', 'disabled_scope_silent', 'others_unaffected',
-    'same_identity_same_instance', 'instance_config_fixed')]
+    'same_identity_same_instance', 'instance_config_fixed')] + ['Otel.Tab.' + t for t in (
+    'tab_nameValid1', 'tab_nameValidA', 'tab_nameValidB', 'tab_unitValid1', 'tab_unitValidA')]
 HARNESSES = [Harness('s_c19', ['harness/s_c19.cc'],
                      sdk_srcs=sdk_sources('common', 'resource', 'version', 'metrics', 'trace', 'logs'),
                      includes=SDK_INCLUDES),
